@@ -305,6 +305,54 @@ class PermutationMatrix(E2Contract):
         return [eq("permutation", out, ref, "P maps e_(i1..in) to e_(i_sigma(1)..i_sigma(n)), sigma = stable sort of the subsystem names")]
 
 
+class DenseBasisProduct(E2Contract):
+    """tensor_product on plain (dense) MatrixBasis objects - the branch CompositeSystem does not use: the product basis of DIFFERENT bases
+    is [kron(b1_i, b2_j)] with the first argument's index outermost (row-major), for two and three factors and both groupings. The inputs
+    are catalogue bases (discrete): enumerated, reported as a bounded stand-in."""
+    name = "tensor_product(MatrixBasis, MatrixBasis)"
+    prop = "C07"
+    targets = (OPS + ":tensor_product", OPS + ":_tensor_product")
+    bounded = "all ordered pairs and selected triples of the catalogue bases comp(2), Pauli, normalised Hermitian(2), comp(3), Gell-Mann"
+    frame = False
+    n_conformance = 1
+
+    NAMES = ("comp2", "pauli", "nherm2", "comp3", "gellmann")
+
+    def configs(self, tier):
+        out = [(a, b) for a in self.NAMES for b in self.NAMES if a != b]
+        out += [("comp2", "pauli", "nherm2"), ("pauli", "comp3", "comp2"), ("nherm2", "comp2", "gellmann")]
+        out += [c + ("right",) for c in (("comp2", "pauli", "nherm2"), ("pauli", "comp3", "comp2"))]
+        return out
+
+    def inputs(self, W, cfg, mk):
+        return dict(probe=mk.real("probe"))
+
+    def _basis(self, W, n):
+        mb = W.mod("quara.objects.matrix_basis")
+        return {"comp2": lambda: mb.get_comp_basis(2), "pauli": mb.get_pauli_basis, "nherm2": lambda: mb.get_normalized_hermitian_basis(2),
+                "comp3": lambda: mb.get_comp_basis(3), "gellmann": mb.get_gell_mann_basis}[n]()
+
+    def run(self, W, cfg, inp):
+        ops = W.mod(OPS)
+        right = cfg[-1] == "right"
+        names = [n for n in cfg if n != "right"]
+        bs = [self._basis(W, n) for n in names]
+        if right:
+            res = ops.tensor_product(bs[0], ops.tensor_product(*bs[1:]))
+        else:
+            res = ops.tensor_product(*bs)
+        return dict(kind=type(res).__name__, basis=[m for m in res.basis], factors=[[m for m in b.basis] for b in bs])
+
+    def post(self, W, cfg, inp, out):
+        np = W.np
+        want = []
+        for combo in itertools.product(*out["factors"]):
+            want.append(kron_all(np, list(combo)))
+        return [eq("dense-basis-kind", out["kind"], "MatrixBasis", "dense bases give a dense MatrixBasis"),
+                eq("product-basis==kron-of-arguments-row-major", out["basis"], want,
+                   "element (i1,..,in) of the product basis is B1_i1 (x) ... (x) Bn_in, first argument outermost")]
+
+
 # ------------------------------------------------------------------ qutrit -> two-qubit embedding
 
 def _embed_setup(W):
